@@ -4,6 +4,7 @@ property text and the worktree; nothing from /verif)"""
 import json, sys
 pid, name = sys.argv[1], sys.argv[2]
 letters = (sys.argv[3] if len(sys.argv) > 3 else 'a,b').split(',')
+hint = sys.argv[4] if len(sys.argv) > 4 else ''
 p = [json.loads(l) for l in open('/verif/properties.jsonl') if json.loads(l)['id'] == pid][0]
 d = f'/tmp/wt/{name}'
 print(f"""You are working on the Python library rsatoolbox (Representational Similarity Analysis) in a scratch git worktree at {d}. Work ONLY inside {d}. Do not read or touch /repo or /verif.
@@ -20,7 +21,7 @@ STATEMENT: {p['statement']}
 SCOPE: {p['quantifier']['text']}
 MECHANISMS THE PROPERTY RESTS ON (from the property record): {'; '.join(m['name'] + ' [' + m['where'] + ']' for m in p['anchors']['mechanism'])}
 
-YOUR TASK (this is mutation testing of a verification harness that you cannot see): produce TWO different, independent, small, realistic changes to the library source (the kind of plausible bug a maintainer could introduce in a refactor or "optimisation") each of which BREAKS the property above, while the package still imports and the existing test suite still passes exactly as before (same 340 passing tests). Each change must need something specific to manifest -- an unusual but legitimate input (e.g. particular sizes, label types, duplicates, ties, NaNs, unbalanced designs, list-vs-array arguments), a particular option/configuration, a multi-step sequence of operations, a particular random outcome, or two cooperating code sites that each look fine alone -- NOT something that every ordinary call would expose at once. Prefer subtle semantic slips (wrong index set, off-by-one in a rarely taken branch, wrong normalisation in one branch, stale variable reuse, wrong pairing/order, lost descriptor, missing copy) over crashes. The two changes should touch different mechanisms; prefer the less obvious mechanisms and clauses of the statement (later clauses, rarely used options, helper functions, secondary entry points) over the first one that comes to mind.
+YOUR TASK (this is mutation testing of a verification harness that you cannot see): produce TWO different, independent, small, realistic changes to the library source (the kind of plausible bug a maintainer could introduce in a refactor or "optimisation") each of which BREAKS the property above, while the package still imports and the existing test suite still passes exactly as before (same 340 passing tests). Each change must need something specific to manifest -- an unusual but legitimate input (e.g. particular sizes, label types, duplicates, ties, NaNs, unbalanced designs, list-vs-array arguments), a particular option/configuration, a multi-step sequence of operations, a particular random outcome, or two cooperating code sites that each look fine alone -- NOT something that every ordinary call would expose at once. Prefer subtle semantic slips (wrong index set, off-by-one in a rarely taken branch, wrong normalisation in one branch, stale variable reuse, wrong pairing/order, lost descriptor, missing copy) over crashes. The two changes should touch different mechanisms; prefer the less obvious mechanisms and clauses of the statement (later clauses, rarely used options, helper functions, secondary entry points) over the first one that comes to mind. {hint}
 
 For EACH change X in {{{', '.join(letters)}}}:
 1. Apply it, run the full test suite, confirm the same tests pass as on the unmodified tree.
